@@ -75,3 +75,119 @@ def gen_vam_constants():
     body += f"def breakupCpm : Nat := {brk['RECEPTION_OF_CPM_CONTAINING_CLUSTER']}\n"
     body += "end Generated.VamConstants\n"
     gen_lean.write_if_changed("VamConstants.lean", body)
+
+
+# ------------------------------------------------------------------------------------------------ lock discipline
+# Structural facts about VBSClusteringManager read by an `ast` pass (nothing imported or executed):
+# the model treats every public method as ONE atomic transition; that is justified only while the whole body of
+# every public method that touches the manager's state is one `with self._lock:` block (an RLock: public methods
+# call each other) and the private helpers ("must be called with lock held") are never called outside such a block.
+# Props/C18.lean discharges these by `decide` on the generated list, so removing / moving a `with self._lock`
+# (or adding an unlocked public mutator) re-opens a proof obligation.
+
+CLUSTERING_SRC = "facilities/vru_awareness_service/vru_clustering.py"
+CLUSTERING_CLASS = "VBSClusteringManager"
+_MUTATING_CALLS = {"add", "discard", "remove", "pop", "append", "clear", "update", "setdefault", "popitem", "extend", "insert"}
+
+
+def _is_self_attr(node, name=None):
+    import ast
+    return (isinstance(node, ast.Attribute) and isinstance(node.value, ast.Name) and node.value.id == "self"
+            and (name is None or node.attr == name))
+
+
+def _is_lock_with(node):
+    import ast
+    return isinstance(node, ast.With) and any(_is_self_attr(it.context_expr, "_lock") for it in node.items)
+
+
+def lock_facts():
+    """[{name, public, touches, mutates, locked}], [(caller, callee)] unlocked calls of private helpers, reentrant flag"""
+    import ast
+    tree = ast.parse(gen_lean.src(CLUSTERING_SRC))
+    cls = next((n for n in tree.body if isinstance(n, ast.ClassDef) and n.name == CLUSTERING_CLASS), None)
+    if cls is None:
+        raise ValueError(f"class {CLUSTERING_CLASS} not found")
+    funcs = [n for n in cls.body if isinstance(n, (ast.FunctionDef, ast.AsyncFunctionDef))]
+    static = {f.name for f in funcs if any(isinstance(d, ast.Name) and d.id == "staticmethod" for d in f.decorator_list)}
+    private = {f.name for f in funcs if f.name.startswith("_") and not f.name.startswith("__")} - static
+    reentrant = None
+    for f in funcs:
+        if f.name == "__init__":
+            for st in ast.walk(f):
+                if isinstance(st, ast.Assign) and any(_is_self_attr(t, "_lock") for t in st.targets) and isinstance(st.value, ast.Call):
+                    fn = st.value.func
+                    nm = fn.attr if isinstance(fn, ast.Attribute) else getattr(fn, "id", None)
+                    reentrant = {"RLock": True, "Lock": False}.get(nm)
+    if reentrant is None:
+        raise ValueError("self._lock = threading.RLock()/Lock() not found in __init__")
+    methods, unlocked_calls = [], []
+    for f in funcs:
+        if f.name == "__init__" or f.name in static:
+            continue
+        body = list(f.body)
+        if body and isinstance(body[0], ast.Expr) and isinstance(getattr(body[0], "value", None), ast.Constant) \
+                and isinstance(body[0].value.value, str):
+            body = body[1:]
+        locked = len(body) == 1 and _is_lock_with(body[0])
+        touches = mutates = False
+        calls = set()
+
+        def visit(node, under):
+            nonlocal touches, mutates
+            if _is_lock_with(node):
+                under = True
+            if _is_self_attr(node) and node.attr.startswith("_") and node.attr not in ("_lock",) and node.attr not in private:
+                touches = True
+                if isinstance(node.ctx, (ast.Store, ast.Del)):
+                    mutates = True
+            if isinstance(node, (ast.Subscript,)) and isinstance(node.ctx, (ast.Store, ast.Del)) and _is_self_attr(node.value):
+                mutates = True
+            if isinstance(node, ast.AugAssign) and _is_self_attr(node.target):
+                mutates = True
+            if isinstance(node, ast.Call) and isinstance(node.func, ast.Attribute):
+                fn = node.func
+                if _is_self_attr(fn) and fn.attr in private:
+                    touches = True                    # private helpers work on the state
+                    calls.add(fn.attr)
+                    if not under and not f.name.startswith("_"):
+                        unlocked_calls.append((f.name, fn.attr))
+                if fn.attr in _MUTATING_CALLS and (_is_self_attr(fn.value) or
+                                                   (isinstance(fn.value, ast.Attribute) and _is_self_attr(fn.value.value))):
+                    mutates = True
+            if isinstance(node, (ast.Attribute,)) and isinstance(node.ctx, ast.Store) and isinstance(node.value, ast.Attribute) \
+                    and _is_self_attr(node.value):
+                mutates = True                         # self._cluster.breakup_started = ...
+            for ch in ast.iter_child_nodes(node):
+                visit(ch, under)
+        for st in f.body:
+            visit(st, False)
+        methods.append({"name": f.name, "public": not f.name.startswith("_"), "touches": touches, "mutates": mutates,
+                        "locked": locked, "calls": calls})
+    changed = True                                     # a method mutates if a helper it calls does
+    by_name = {m["name"]: m for m in methods}
+    while changed:
+        changed = False
+        for m in methods:
+            if not m["mutates"] and any(by_name[c]["mutates"] for c in m["calls"] if c in by_name):
+                m["mutates"] = changed = True
+    return methods, unlocked_calls, reentrant
+
+
+@gen_lean.register(props=["C18"])
+def gen_vru_locks():
+    methods, unlocked_calls, reentrant = lock_facts()
+    b = lambda v: "true" if v else "false"
+    body = "namespace Generated.VruLocks\n"
+    body += "/-- a method of VBSClusteringManager: does it read / write the manager's state, is its whole body one\n"
+    body += "`with self._lock:` block -/\n"
+    body += "structure Method where\n  name : String\n  isPublic : Bool\n  touchesState : Bool\n  mutates : Bool\n  underLock : Bool\n"
+    body += "  deriving DecidableEq, Repr\n"
+    body += "def methods : List Method := [\n"
+    body += ",\n".join(f'  ⟨"{m["name"]}", {b(m["public"])}, {b(m["touches"])}, {b(m["mutates"])}, {b(m["locked"])}⟩' for m in methods)
+    body += "]\n"
+    body += "/-- calls of a private helper from a public method outside `with self._lock:` (caller, callee) -/\n"
+    body += "def unlockedHelperCalls : List (String × String) := [" + ", ".join(f'("{a}", "{c}")' for a, c in unlocked_calls) + "]\n"
+    body += f"/-- `self._lock` is an RLock (public methods call public methods) -/\ndef lockReentrant : Bool := {b(reentrant)}\n"
+    body += "end Generated.VruLocks\n"
+    gen_lean.write_if_changed("VruLocks.lean", body)
